@@ -134,7 +134,7 @@ type FormatTableItem struct {
 // found in archives or index files.
 type FormatDecoder struct {
 	r       reader
-	advance io.Reader
+	advance *io.LimitedReader
 }
 
 func NewFormatDecoder(r io.Reader) FormatDecoder {
@@ -149,7 +149,12 @@ func (d *FormatDecoder) Next() (interface{}, error) {
 	// case the caller didn't read it all.
 	if d.advance != nil {
 		io.Copy(ioutil.Discard, d.advance)
+		short := d.advance.N > 0
 		d.advance = nil
+		if short {
+			// The stream ended before all the bytes of the payload were read
+			return nil, io.ErrUnexpectedEOF
+		}
 	}
 	hdr, err := d.r.ReadHeader()
 	if err != nil {
@@ -256,7 +261,10 @@ func (d *FormatDecoder) Next() (interface{}, error) {
 			return nil, InvalidFormat{"payload size too small"}
 		}
 		size := hdr.Size - 16
-		r := io.LimitReader(d.r, int64(size))
+		if size > math.MaxInt64 {
+			return nil, InvalidFormat{"payload size too large"}
+		}
+		r := &io.LimitedReader{R: d.r, N: int64(size)}
 		// Record the reader to be read fully on the next iteration if the caller
 		// didn't do it
 		d.advance = r
